@@ -14,7 +14,10 @@ def main():
         elif a[0] == "--timeout": timeout = int(a[1]); a = a[2:]
         elif a[0] == "--unwindset": us = dict(x.split("=") for x in a[1].split(",")); a = a[2:]
     inv = {v: k for k, v in runner.OVERLAY.items()}
-    srcrel, modname = runner.EXTRA_OVERLAY[mod] if mod in runner.EXTRA_OVERLAY else (inv[mod], "verif_kani")
+    if mod in runner.CHILD_OF_GEN:
+        srcrel, modname = inv[runner.CHILD_OF_GEN[mod]], "verif_kani_gen::objblock_h"
+    else:
+        srcrel, modname = runner.EXTRA_OVERLAY[mod] if mod in runner.EXTRA_OVERLAY else (inv[mod], "verif_kani")
     modpath = srcrel[:-3].replace("/", "::")
     obls = [{"id": h, "engine": "kani", "module": mod, "harness": f"{modpath}::{modname}::{h}", "cbmc_args": cbmc, "timeout_s": timeout, **({"unwindset": {k: int(v) for k, v in us.items()}} if us else {})} for h in a]
     key = runner.repo_key()
